@@ -255,6 +255,7 @@ def run(chk, ctx):
                "makespan/cost() only maintained inside Sequence" if not reads else
                f"read outside Sequence: {[(r, q) for r, q, _ in reads]}", rel=SEQ + "basic_functions.py", nontrivial=False)
     homo(chk, ctx, rf)
+    base_rules(chk, ctx)
     chk.note("not decided: that the recurrences are the optimum of the hierarchical problem, and the monotonicity "
              "statements between classes (consequences of the min over options, but they need induction over table values)")
 
@@ -375,3 +376,217 @@ def homo(chk, ctx, rf):
             chk.decide("C07.HOMO", cons, True if same else False,
                        f"production {[repr(x) for x in items][:6]} costs {pstr(total)}; the decision minimises `{d['text']}` "
                        f"= {pstr(dict(d['elem']))}", rel=drel, node=items[0].node)
+
+
+# ---------------------------------------------------------------------------
+# BASE: the border entries of the tables are the costs of the base productions
+
+def _sum_over(poly, var, lo, hi):
+    """sum_{var=lo}^{hi-1} poly  for poly of degree <= 2 in var; lo, hi polynomials"""
+    from ..poly import padd, pmul, pconst, patom
+    # split poly by power of var
+    parts = {0: {}, 1: {}, 2: {}}
+    for mono, c in poly.items():
+        d = sum(1 for a in mono if a == var)
+        if d > 2:
+            return None
+        rest = tuple(a for a in mono if a != var)
+        parts[d][rest] = parts[d].get(rest, 0) + c
+
+    def S0(n):      # sum_{i=0}^{n-1} 1
+        return n
+
+    def S1(n):      # sum i = n(n-1)/2
+        return pmul(pmul(n, padd(n, pconst(1), -1)), pconst(Fr(1, 2)))
+
+    def S2(n):      # sum i^2 = (n-1)n(2n-1)/6
+        return pmul(pmul(pmul(padd(n, pconst(1), -1), n), padd(pmul(n, pconst(2)), pconst(1), -1)), pconst(Fr(1, 6)))
+    out = {}
+    for (f, sgn) in ((hi, 1), (lo, -1)):
+        for d, S in ((0, S0), (1, S1), (2, S2)):
+            if parts[d]:
+                out = padd(out, pmul(parts[d], S(f)), sgn)
+    return out
+
+
+from fractions import Fraction as Fr
+
+
+def production_cost(items, costs, pb, hier):
+    """symbolic cost of a production in the tables' cost model: a (Write_Forward k, Forward [k-1,k],
+    Backward [k,k-1], Discard_Forward k) quartet costs ub; other operations cost what
+    Operation.cost says; loops are summed in closed form.  -> (poly | None, reason)"""
+    from ..poly import padd, pmul, pconst, patom
+    total = {}
+    i = 0
+    n = len(items)
+    while i < n:
+        it = items[i]
+        if isinstance(it, tuple):
+            _, loop, body = it
+            # for index in range(a, b, -1)  /  range(a, b)
+            if not (isinstance(loop, ast.For) and isinstance(loop.iter, ast.Call) and getattr(loop.iter.func, "id", None) == "range"
+                    and isinstance(loop.target, ast.Name)):
+                return None, "unrecognised loop"
+            args = loop.iter.args
+            var = loop.target.id
+            if len(args) == 3 and isinstance(args[2], ast.UnaryOp) and isinstance(args[2].operand, ast.Constant) \
+                    and args[2].operand.value == 1:
+                lo = padd(pb.poly(args[1]), pconst(1))
+                hi = padd(pb.poly(args[0]), pconst(1))
+            elif len(args) == 2:
+                lo, hi = pb.poly(args[0]), pb.poly(args[1])
+            else:
+                return None, "unrecognised range"
+            # conditional items of the body: `if index != first: X` (all but one iteration) / `if index + 1 != 0: X` (always)
+            uncond, all_but_one = [], []
+            for s in loop.body:
+                hit = [b for b in body if b.node is s]
+                if hit:
+                    uncond += hit
+                elif isinstance(s, ast.If):
+                    inner = [b for b in body if any(b.node is x for x in s.body)]
+                    t = s.test
+                    if isinstance(t, ast.Compare) and isinstance(t.ops[0], ast.NotEq):
+                        lhs = pb.poly(ast.BinOp(t.left, ast.Sub(), t.comparators[0]))
+                        # value excluded is inside the range?  index != range-start  -> all but one
+                        probe_first = {k: v for k, v in lhs.items()}
+                        from ..poly import pkey as _pk
+                        # substitute index := hi-1 (first iteration of a descending loop)
+                        def subst(p, val):
+                            out = {}
+                            for mono, c in p.items():
+                                term = {(): c}
+                                for a in mono:
+                                    term = pmul(term, val if a == var else patom(a))
+                                out = padd(out, term)
+                            return out
+                        at_first = subst(lhs, padd(hi, pconst(1), -1))
+                        at_lo_m1 = subst(lhs, padd(lo, pconst(1), -1))
+                        if not at_first:
+                            all_but_one += inner
+                        elif not at_lo_m1:
+                            uncond += inner        # excluded value lies just outside the range: always true
+                        else:
+                            return None, f"unrecognised loop condition {ast.unparse(t)}"
+                    else:
+                        return None, f"unrecognised loop condition {ast.unparse(t)}"
+            c1, why = production_cost(uncond, costs, pb, hier)
+            c2, why2 = production_cost(all_but_one, costs, pb, hier)
+            if c1 is None or c2 is None:
+                return None, why or why2
+            s1 = _sum_over(c1, pb.rename.get(var, var), lo, hi)
+            if s1 is None:
+                return None, "loop body cost of degree > 2"
+            total = padd(total, s1)
+            if c2:
+                if any(pb.rename.get(var, var) in mono for mono in c2):
+                    return None, "conditional loop item depends on the loop variable"
+                total = padd(total, pmul(c2, padd(padd(hi, lo, -1), pconst(1), -1)))
+            i += 1
+            continue
+        if it.kind == "op" and it.type.startswith("Write_Forward") and i + 3 < n + 0 and i + 3 <= n - 1 + 0 or \
+                (it.kind == "op" and it.type.startswith("Write_Forward") and i + 3 < n):
+            q = items[i:i + 4]
+            if all(not isinstance(x, tuple) and x.kind == "op" for x in q) and q[1].type == "Forward" and q[2].type == "Backward" \
+                    and q[3].type.startswith("Discard_Forward"):
+                total = padd(total, patom("ub"))
+                i += 4
+                continue
+        if it.kind == "op":
+            c = costs.get(it.type)
+            if c is None:
+                return None, f"no cost rule for {it.type}"
+            if c[0] == "span":
+                a, z = it.idx.elts
+                total = padd(total, pmul(pb.poly(ast.BinOp(z, ast.Sub(), a)), patom(c[1])))
+            elif c[0] == "key":
+                total = padd(total, patom(c[1]))
+            elif c[0] == "veckey":
+                vec = {"wd": "wvect", "rd": "rvect"}.get(c[1], c[1])
+                total = padd(total, patom(f"{vec}[{pstr(pb.poly(it.idx.elts[0]))}]"))
+            i += 1
+            continue
+        return None, "sub-sequence call in a base production"
+    return total, ""
+
+
+def base_rules(chk, ctx):
+    from ..gram import Grammar, production_paths
+    from ..poly import padd, pconst
+    chk.describe("C07.BASE", "border entries of the cost tables equal the cost of the base productions they stand for")
+    repo = ctx.repo
+    g = Grammar(repo)
+    live = g.liveness
+    costs = op_costs(repo)
+
+    def cond_key(conds, fn):
+        """path conditions as a frozenset of normalised strings (only tests on l / cm / K / cmem)"""
+        out = []
+        for node, val in conds:
+            t = " ".join(ast.unparse(node.test).split())
+            if any(k in t for k in ("l ==", "cm ==", "cmem ==", "K ==")):
+                out.append((t, val))
+        return tuple(out)
+    # expected border expressions, read from the table builders: k-th `append` / constant-index store
+    def table_values(tname):
+        rel, fn = live.funcs[tname]
+        pb = builder(tname)
+        vals = []
+        for s in ast.walk(fn):
+            if isinstance(s, ast.Expr) and isinstance(s.value, ast.Call) and isinstance(s.value.func, ast.Attribute) \
+                    and s.value.func.attr == "append" and len(s.value.args) == 1 and id(s) not in live.dead_nodes:
+                vals.append((s.lineno, s, s.value.args[0]))
+        vals.sort(key=lambda x: x[0])
+        return rel, fn, pb, vals
+    SPEC = [  # (table, k-th append, builder, path condition that selects the production, reason)
+        ("get_opt_0_table", 0, "revolve", (("l == 0", True),)),
+        ("get_opt_0_table", 1, "revolve", (("l == 0", False), ("cm == 0", False), ("l == 1", True))),
+        ("get_opt_0_table", 2, "revolve", (("l == 0", False), ("cm == 0", False), ("l == 1", False), ("cm == 1", True))),
+        ("get_opt_inf_table", 0, "disk_revolve", (("l == 0", True),)),
+        ("get_opt_inf_table", 1, "disk_revolve", (("l == 0", False), ("l == 1", True), ("cm == 0", True))),
+        ("get_opt_inf_table", 2, "disk_revolve", (("l == 0", False), ("l == 1", True), ("cm == 0", False))),
+    ]
+    for tname, k, bname, want in SPEC:
+        if tname not in live.funcs or bname not in g.builders:
+            continue
+        rel, fn, pb, vals = table_values(tname)
+        cons = f"{rel[:-3].replace('/', '.')}.{tname}#border[{k}]<->{bname}"
+        if k >= len(vals):
+            chk.decide("C07.BASE", cons, None, f"{tname} has only {len(vals)} live append statements", rel=rel, node=fn)
+            continue
+        _, stmt, expr = vals[k]
+        expect = pb.poly(expr)
+        prods = [(c, it) for c, it in production_paths(g, bname) if cond_key(c, None) == want]
+        if len(prods) != 1:
+            chk.decide("C07.BASE", cons, None, f"{len(prods)} productions of {bname} under {want}", rel=rel, node=stmt)
+            continue
+        pbb = builder(tname)
+        cost, why = production_cost(prods[0][1], costs, pbb, False)
+        if cost is None:
+            chk.decide("C07.BASE", cons, None, why, rel=rel, node=stmt)
+            continue
+        same = pkey(cost) == pkey(expect)
+        chk.decide("C07.BASE", cons, True if same else False,
+                   f"table border `{' '.join(ast.unparse(expr).split())}` = {pstr(expect)}; the production of {bname} under "
+                   f"{[t for t, v in want if v]} costs {pstr(cost)}", rel=rel, node=stmt)
+    # hierarchical tables: row 0 is ub for both tables <-> l == 0 productions of aux and recurse
+    if "get_hopt_table" in live.funcs:
+        rel, fn = live.funcs["get_hopt_table"]
+        pb = builder("get_hopt_table")
+        row0 = [s for s in ast.walk(fn) if isinstance(s, ast.Assign) and isinstance(s.targets[0], ast.Subscript)
+                and isinstance(s.targets[0].value, ast.Subscript) and isinstance(s.targets[0].value.slice, ast.Constant)
+                and s.targets[0].value.slice.value == 0]
+        for bname in ("hrevolve_aux", "hrevolve_recurse"):
+            prods = [(c, it) for c, it in production_paths(g, bname)
+                     if any(t == "l == 0" and v for t, v in cond_key(c, None))]
+            cons = f"{rel[:-3].replace('/', '.')}.get_hopt_table#row0<->{bname}"
+            if not prods or not row0:
+                chk.decide("C07.BASE", cons, None, "row 0 / l == 0 production not found", rel=rel, node=fn)
+                continue
+            cost, why = production_cost(prods[0][1], costs, builder("get_hopt_table"), True)
+            vals = {pkey(pb.poly(s.value)) for s in row0}
+            ok = cost is not None and vals == {pkey(cost)}
+            chk.decide("C07.BASE", cons, True if ok else (False if cost is not None else None),
+                       f"row 0 of the H-Revolve tables is {[pstr(dict(v)) for v in vals]}; the l == 0 production of {bname} costs "
+                       f"{pstr(cost) if cost is not None else why}", rel=rel, node=row0[0])
